@@ -307,8 +307,12 @@ def make_copy(oid, mutator, side):
         elif mutator == "lazy+setter":
             g.edge_node_connectivity
             g.node_lat = DA(arr(new), dims=["n_node"])
+        elif mutator == "inplace":
+            # writes through the arrays the grid hands out (connectivity entry, one longitude)
+            g.face_node_connectivity.values[0, 0] = 4
+            g.node_lon.values[1] = new[0] if not isinstance(new[0], z3.ExprRef) else mk(new[0])
 
-    OBS = {"setter": ["node_lon", "node_lat"], "normalize": ["node_x", "node_y", "node_z"], "face_centers": ["face_lon", "face_lat"], "lazy+setter": ["node_lat", "node_lon"]}
+    OBS = {"inplace": ["face_node_connectivity", "node_lon"], "setter": ["node_lon", "node_lat"], "normalize": ["node_x", "node_y", "node_z"], "face_centers": ["face_lon", "face_lat"], "lazy+setter": ["node_lat", "node_lon"]}
 
     def run(ctx, inp):
         lon, lat, new, r, flon = inp
@@ -509,7 +513,7 @@ def obligations(tier):
     obs += [make_inputs_ugrid("C19.inputs.ugrid.int64.std.si1", "int64", "std", 1), make_inputs_ugrid("C19.inputs.ugrid.int64.minus1.si0", "int64", "minus1", 0),
             make_inputs_ugrid("C19.inputs.ugrid.int32.minus1.si1", "int32", "minus1", 1)]
     obs += [make_inputs_internal("C19.inputs.internal.from_dataset_spec", "from_dataset_spec"), make_inputs_internal("C19.inputs.internal.init", "init")]
-    obs += [make_copy(f"C19.copy.{m.replace('+', '_')}.{s}", m, s) for m in ("setter", "normalize", "face_centers", "lazy+setter") for s in ("orig", "copy")]
+    obs += [make_copy(f"C19.copy.{m.replace('+', '_')}.{s}", m, s) for m in ("setter", "normalize", "face_centers", "lazy+setter", "inplace") for s in ("orig", "copy")]
     obs += [make_copy_export("C19.copy.export.line.orig", "orig", "line"), make_copy_export("C19.copy.export.poly.copy", "copy", "poly")]
     obs += [make_export(f"C19.export.{e}.{h}", e, h) for e in ("values_inplace", "drop_var", "attrs", "conn_inplace") for h in ("fresh", "with_topology_var")]
     obs += [make_export("C19.export.values_inplace.edges_first", "values_inplace", "edges_first")]
